@@ -3,6 +3,7 @@
 package zzverif
 
 import (
+	"encoding/json"
 	"fmt"
 	"sync"
 
@@ -29,7 +30,7 @@ func H_Purity() {
 	rtEpoch()
 	e, err := parseOpt(text, df)
 	e2, err2 := parseOpt(text, df)
-	rtAssert("parse-deterministic", (err == nil) == (err2 == nil))
+	rtAssert("parse-deterministic", errText(err) == errText(err2))
 	if err != nil || e == nil || e2 == nil {
 		rtReach("rejected")
 		return
@@ -40,24 +41,69 @@ func H_Purity() {
 	s1 := e.String()
 	rtAssert("unchanged-by-String", rtUnchanged(snap))
 	rtAssert("string-deterministic", s1 == e.String())
-	_ = expr.Validate(e)
+	verr := expr.Validate(e)
 	rtAssert("unchanged-by-Validate", rtUnchanged(snap))
+	rtAssert("validate-deterministic", errText(verr) == errText(expr.Validate(e)))
 	sql1, rerr1 := pg.Render(e)
 	rtAssert("unchanged-by-Render", rtUnchanged(snap))
 	sql2, rerr2 := pg.Render(e)
-	rtAssert("render-deterministic", (rerr1 == nil) == (rerr2 == nil) && sql1 == sql2)
+	rtAssert("render-deterministic", errText(rerr1) == errText(rerr2) && sql1 == sql2)
 	p1, a1, perr1 := pg.RenderParam(e)
 	rtAssert("unchanged-by-RenderParam", rtUnchanged(snap))
 	p2, a2, perr2 := pg.RenderParam(e)
-	rtAssert("renderparam-deterministic", (perr1 == nil) == (perr2 == nil) && p1 == p2 && len(a1) == len(a2))
+	rtAssert("renderparam-deterministic", errText(perr1) == errText(perr2) && p1 == p2 && sameParams(a1, a2))
+	j1, jerr1 := json.Marshal(e)
+	rtAssert("unchanged-by-Marshal", rtUnchanged(snap))
+	j2, jerr2 := json.Marshal(e)
+	rtAssert("marshal-deterministic", errText(jerr1) == errText(jerr2) && string(j1) == string(j2))
+	p3, a3, perr3 := pg.RenderParam(e)
+	rtAssert("renderparam-deterministic", errText(perr1) == errText(perr3) && p1 == p3 && sameParams(a1, a3))
 	rtAssert("gostring-unchanged", g == fmt.Sprintf("%#v", e))
 	// the renderers of the top-level API use the shared package-level driver
 	t1, terr1 := lucene.ToPostgres(text)
 	t2, terr2 := lucene.ToPostgres(text)
 	if df == 0 {
-		rtAssert("topostgres-deterministic", (terr1 == nil) == (terr2 == nil) && t1 == t2 && (rerr1 == nil) == (terr1 == nil) && t1 == sql1)
+		rtAssert("topostgres-deterministic", errText(terr1) == errText(terr2) && t1 == t2 && (rerr1 == nil) == (terr1 == nil) && t1 == sql1)
 	}
 	rtReach("end")
+}
+
+func errText(err error) string {
+	if err == nil {
+		return ""
+	}
+	return "error: " + err.Error()
+}
+
+// sameParams compares two parameter lists by dynamic type and value.
+func sameParams(a, b []any) bool {
+	if len(a) != len(b) {
+		return false
+	}
+	for i := range a {
+		switch x := a[i].(type) {
+		case string:
+			y, ok := b[i].(string)
+			if !ok || x != y {
+				return false
+			}
+		case int:
+			y, ok := b[i].(int)
+			if !ok || x != y {
+				return false
+			}
+		case float64:
+			y, ok := b[i].(float64)
+			if !ok || !(x == y || (x != x && y != y)) {
+				return false
+			}
+		default:
+			if fmt.Sprintf("%T", a[i]) != fmt.Sprintf("%T", b[i]) {
+				return false
+			}
+		}
+	}
+	return true
 }
 
 // raceProbe runs every entry point from several goroutines on a shared input and a shared
@@ -84,6 +130,7 @@ func raceProbe(text string) {
 					_ = expr.Validate(shared)
 					_, _ = pg.Render(shared)
 					_, _, _ = pg.RenderParam(shared)
+					_, _ = json.Marshal(shared)
 				}
 			}
 		}(i)
